@@ -112,6 +112,16 @@ def _make_float_literal(value: float) -> cst.BaseExpression:
     return cst.Float(str(value))
 
 
+def _make_int_literal(value: int) -> cst.Integer:
+    try:
+        return cst.Integer(str(value))
+    except ValueError:
+        # The value has more digits than the interpreter converts to a decimal
+        # string (see sys.set_int_max_str_digits) or accepts in a decimal
+        # literal; hexadecimal literals are not limited.
+        return cst.Integer(hex(value))
+
+
 def _object_assertion_to_cst(assertion: ass.ObjectAssertion) -> cst.SimpleStatementLine:
     value = assertion.object
     if isinstance(value, bool) or value is None:
@@ -156,8 +166,8 @@ def _value_to_cst(value: Any) -> cst.BaseExpression:  # noqa: C901
         return cst.Name("True" if value else "False")
     if isinstance(value, int):
         if value < 0:
-            return cst.UnaryOperation(operator=cst.Minus(), expression=cst.Integer(str(-value)))
-        return cst.Integer(str(value))
+            return cst.UnaryOperation(operator=cst.Minus(), expression=_make_int_literal(-value))
+        return _make_int_literal(value)
     if isinstance(value, float):
         return _make_float_literal(value)
     # Members of enums that mix in str/bytes (e.g. enum.StrEnum) are rendered
